@@ -764,8 +764,21 @@ impl<'t, 'a> Gen<'t, 'a> {
                 }
             }
         }
+        // the owner of `.prototype` is usually a global class; sometimes an expression with effects (not a static path)
+        let owner = if self.t.chance(30) && !(self.o.exec && self.o.avoid.missing_proto_method) {
+            // (not in executed programs while the known finding about methods missing on the prototype is open: whether
+            // `<expression>.prototype.m` exists is not known to the generator)
+            self.tag("proto-path-not-static");
+            match self.t.below(3) {
+                0 => E::Call { callee: self.local_fn_or_h().bx(), args: vec![Arg { spread: false, e: E::id(class) }], optional: false },
+                1 => E::Index { obj: E::id("o").bx(), idx: self.ident().bx(), optional: false },
+                _ => E::Member { obj: E::Call { callee: E::id("h").bx(), args: vec![], optional: false }.bx(), prop: "q".into(), optional: false },
+            }
+        } else {
+            E::id(class)
+        };
         let path = E::Member {
-            obj: E::Member { obj: E::id(class).bx(), prop: "prototype".into(), optional: false }.bx(),
+            obj: E::Member { obj: owner.bx(), prop: "prototype".into(), optional: false }.bx(),
             prop: m,
             optional: false,
         };
